@@ -171,6 +171,10 @@ func (hd *HeaderDirectives) GetExpiresOrDefault(forceDefaultCacheMaxAge bool, de
 			if cc.maxAge > 0 {
 				return time.Now().Add(cc.maxAge)
 			}
+			if cc.hasMaxAge {
+				// max-age=0: stale at once (such a response is only stored when directives are ignored)
+				return time.Now()
+			}
 		}
 		if hd.Expires.IsPresent() {
 			return hd.Expires.Value()
